@@ -12,6 +12,7 @@ import (
 	"verifmc/env"
 	"verifmc/explore"
 	"verifmc/refmodel"
+	"verifshim/vsync"
 )
 
 func lengths(thorough bool) []uint64 {
@@ -270,6 +271,99 @@ func main() {
 					}
 				}
 			}
+		})
+
+		// The codec functions are stateless by contract: what one call emits or decodes must not
+		// depend on which call came before it on the same goroutine, in particular not on a call
+		// that failed half-way (scratch state, package-level buffers).
+		r.Part("E4-history-independence", func(t *explore.T) {
+			poisons := []refmodel.Hdr{
+				{Fin: true, Rsv: 7, Op: 0xf, Masked: true, Mask: [4]byte{0xff, 0xff, 0xff, 0xff}, Len: 1<<63 - 1},
+				{Fin: false, Rsv: 0, Op: 0, Masked: true, Mask: [4]byte{0x11, 0x22, 0x33, 0x44}, Len: 65536},
+			}
+			type prior struct {
+				name string
+				run  func(ph refmodel.Hdr)
+			}
+			failing := func(at, partial int) *env.Dst {
+				d := env.NewDst()
+				d.FailAt, d.Partial = at, partial
+				return d
+			}
+			small := func(ph refmodel.Hdr) ws.Frame {
+				ph.Len = 5
+				return ws.Frame{Header: toWs(ph), Payload: []byte("hello")}
+			}
+			priors := []prior{
+				{"none", func(refmodel.Hdr) {}},
+				{"WriteHeader-ok", func(ph refmodel.Hdr) { ws.WriteHeader(env.NewDst(), toWs(ph)) }},
+				{"WriteHeader-dst-fails", func(ph refmodel.Hdr) { ws.WriteHeader(failing(0, 0), toWs(ph)) }},
+				{"WriteHeader-dst-fails-after-1-byte", func(ph refmodel.Hdr) { ws.WriteHeader(failing(0, 1), toWs(ph)) }},
+				{"WriteFrame-ok", func(ph refmodel.Hdr) { ws.WriteFrame(env.NewDst(), small(ph)) }},
+				{"WriteFrame-header-write-fails", func(ph refmodel.Hdr) { ws.WriteFrame(failing(0, 0), small(ph)) }},
+				{"WriteFrame-payload-write-fails", func(ph refmodel.Hdr) { ws.WriteFrame(failing(1, 2), small(ph)) }},
+				{"CompileFrame", func(ph refmodel.Hdr) { ws.CompileFrame(small(ph)) }},
+				{"ReadHeader-ok", func(ph refmodel.Hdr) { ws.ReadHeader(env.NewSrc(refmodel.HdrEncode(ph))) }},
+				{"ReadHeader-cut-after-1", func(ph refmodel.Hdr) { ws.ReadHeader(env.NewSrc(refmodel.HdrEncode(ph)[:1])) }},
+				{"ReadHeader-cut-in-length", func(ph refmodel.Hdr) { ws.ReadHeader(env.NewSrc(refmodel.HdrEncode(ph)[:3])) }},
+				{"ReadHeader-cut-in-mask", func(ph refmodel.Hdr) {
+					e := refmodel.HdrEncode(ph)
+					ws.ReadHeader(env.NewSrc(e[:len(e)-2]))
+				}},
+				{"ReadHeader-length-msb-set", func(refmodel.Hdr) {
+					ws.ReadHeader(env.NewSrc([]byte{0xff, 0xff, 0xff, 0xff, 0xff, 0xff, 0xff, 0xff, 0xff, 0xff, 1, 2, 3, 4}))
+				}},
+				{"ReadFrame-payload-cut", func(ph refmodel.Hdr) {
+					ph.Len = 5
+					ws.ReadFrame(env.NewSrc(append(refmodel.HdrEncode(ph), 'h', 'e')))
+				}},
+			}
+			lens := []uint64{0, 125, 126, 65535, 65536, 1<<63 - 1}
+			// sequential, with every pool on a deterministic free list that is emptied before each
+			// case: a pool declared inside gobwas/ws reaches the shim through vcheck's overlay
+			vsync.SetMode(vsync.LIFO)
+			defer vsync.SetMode(vsync.FreshPoison)
+			for i := 0; i < len(priors)*len(poisons); i++ {
+				pr, ph := priors[i/len(poisons)], poisons[i%len(poisons)]
+				for hi := 0; hi < 2*3*16*2; hi++ {
+					fin, rsv, op, masked := hi&1 != 0, []byte{0, 2, 7}[(hi>>1)%3], byte((hi/6)%16), (hi/96)&1 != 0
+					for _, ln := range lens {
+						h := refmodel.Hdr{Fin: fin, Rsv: rsv, Op: op, Masked: masked, Len: ln}
+						if masked {
+							h.Mask = masks[1]
+						}
+						t.Do(func() string { return fmt.Sprintf("after %s(%v): hdr %s", pr.name, ph, h) }, func() *explore.Fail {
+							want := refmodel.HdrEncode(h)
+							vsync.ResetAll()
+							for round := 0; round < 2; round++ {
+								pr.run(ph)
+								var buf bytes.Buffer
+								if err := ws.WriteHeader(&buf, toWs(h)); err != nil {
+									return explore.Failf("WriteHeader-error-after:"+pr.name, "%v", err)
+								}
+								if !bytes.Equal(buf.Bytes(), want) {
+									return explore.Failf("WriteHeader-bytes-depend-on-previous-call:"+pr.name, "got %x want %x", buf.Bytes(), want)
+								}
+								pr.run(ph)
+								cb, err := ws.CompileFrame(ws.Frame{Header: toWs(refmodel.Hdr{Fin: h.Fin, Rsv: h.Rsv, Op: h.Op, Masked: h.Masked, Mask: h.Mask, Len: 0})})
+								h0 := h
+								h0.Len = 0
+								if err != nil || !bytes.Equal(cb, refmodel.HdrEncode(h0)) {
+									return explore.Failf("CompileFrame-bytes-depend-on-previous-call:"+pr.name, "err=%v got %x want %x", err, cb, refmodel.HdrEncode(h0))
+								}
+								pr.run(ph)
+								d := runReadHeader(append(append([]byte{}, want...), sentinel...), 0)
+								if d.err != nil || !sameHdr(d.h, h) || d.used != len(want) {
+									return explore.Failf("ReadHeader-depends-on-previous-call:"+pr.name, "err=%v got %+v consumed %d", d.err, d.h, d.used)
+								}
+							}
+							return nil
+						})
+					}
+				}
+			}
+			t.Outcome("independent")
+			t.Note(fmt.Sprintf("%d prior calls (succeeding, failing at the header or payload write, decoding cut or invalid input) x 2 poison headers, each followed by encode/compile/decode of 1152 headers; pools (gobwas/pool and any declared in gobwas/ws) on a deterministic LIFO free list, emptied before each case", len(priors)))
 		})
 	})
 }
